@@ -142,6 +142,12 @@ def emulated_host(ctx, n_cases, n_values):
     preprocessor test decides) and `--endian big`.  Controls: the same memory model with the code told it is little-endian,
     and the `--endian little` statements, must produce wrong bytes for multi-byte fields."""
     res = ctx.res
+    from vlib import be_emu
+    problem = be_emu.selftest(ctx.casedir("emu-selftest"))
+    if problem:
+        res.inconclusive.append("big-endian host emulation failed its self-test: " + problem)
+        return
+    res.count("emu_selftests_passed")
     for k in range(n_cases):
         if ctx.out_of_time():
             break
